@@ -390,6 +390,27 @@ def c03(version, routes, ops, timeout, res):
                 bad.append(("overlap:%s" % jkey(f1[1])[:40],
                             "CALL %r was written at %.2f while the request %r (written %.2f) was still outstanding" % (
                                 f2[1], t2, f1[1], t1)))
+    # a request that was written leaves the gate through its MATCHING reply (or a timeout, a cancellation): if it ended
+    # with a reply-borne outcome, a reply frame with its id must have arrived
+    replies_in = []
+    now = 0.0
+    for o in ops:
+        if o[0] == "tick":
+            now += o[1]
+        if o[0] == "inbound":
+            try:
+                fr = json.loads(o[1])
+            except ValueError:
+                continue
+            if isinstance(fr, list) and len(fr) >= 3 and fr[0] in (3, 4) and not isinstance(fr[0], bool):
+                replies_in.append((now, fr))
+    for k, v in done.items():
+        u = ids.get(k)
+        if v[0] in ("result", "none", "ocpp", "exc") and len(by_id.get(jkey(u), [])) == 1 and \
+                any(jkey(fr[1]) == jkey(u) for (_, fr) in calls) and not any(_py_eq(fr[1], u) and ta <= v[2] + 1e-9 for (ta, fr) in replies_in):
+            bad.append(("released-without-its-reply:%s" % jkey(u)[:40],
+                        "request %r was written and ended with %r although no reply with its id had arrived by then (the gate was released "
+                        "by something else)" % (u, v[:2])))
     if res["locked"]:
         bad.append(("gate-held", "the send gate is still held after every request completed"))
     if "99" in {str(k) for k in res["outcomes"]}:
